@@ -33,6 +33,10 @@ def apply(cl, kind, senders=None):
         cl.partition(a, b)
     elif what == 'heal':
         cl.heal(a, b)
+    elif what == 'stall':
+        cl.stall(a, b)
+    elif what == 'unstall':
+        cl.unstall(a, b)
     elif what == 'proc':
         sd = cl.cores[a].supervisor_data
         if cl.net.alive[cl.cores[a].ident] and 'app:p1' in sd.table:
@@ -58,15 +62,16 @@ def watch_requests(core, senders):
 
 
 def run_schedule(src, n=2, rounds=6, closing=10, faults=1, delays=0, configs=('LIST+TIMEOUT',), fences=(False,),
-                 failures=('CONTINUE',), kinds=None, fault_from=2, plan_fn=None):
+                 failures=('CONTINUE',), kinds=None, fault_from=2, plan_fn=None, rules=None, programs=None,
+                 release_at=None):
     cfg_name = src.pick('config', list(configs))
     cfg = dict(CONFIGS[cfg_name])
     cfg['auto_fence'] = str(src.pick('auto_fence', list(fences)))
     cfg['supvisors_failure_strategy'] = src.pick('failure_strategy', list(failures))
     if cfg['supvisors_failure_strategy'] != 'CONTINUE':
         cfg['synchro_options'] = cfg['synchro_options'].replace(',TIMEOUT', '').replace('TIMEOUT', 'LIST')
-    programs = {i: [('app', 'p1')] for i in range(n)}
-    cl = Cluster(n, cfg, programs)
+    programs = programs or {i: [('app', 'p1')] for i in range(n)}
+    cl = Cluster(n, cfg, programs, rules=rules)
     senders = []
     for c in cl.cores:
         watch_requests(c, senders)
@@ -79,7 +84,11 @@ def run_schedule(src, n=2, rounds=6, closing=10, faults=1, delays=0, configs=('L
     budget = [delays]
     counter = [0]
 
+    current = [0]
+
     def hold(task):
+        if release_at is not None and task[0] == 'supervisord' and current[0] < release_at:
+            return True         # the supervisords are slow: what they were asked stays pending until that round
         if budget[0] <= 0 or counter[0] > 500:
             return False
         counter[0] += 1
@@ -95,6 +104,7 @@ def run_schedule(src, n=2, rounds=6, closing=10, faults=1, delays=0, configs=('L
             if t[-1] != c.fsm.state.name:
                 t.append(c.fsm.state.name)
     for r in range(rounds):
+        current[0] = r
         for pos in range(n):
             for (fr, fp, kind) in plan:
                 if fr == r and fp == pos:
@@ -104,7 +114,7 @@ def run_schedule(src, n=2, rounds=6, closing=10, faults=1, delays=0, configs=('L
             c = cl.cores[pos]
             if cl.net.alive[c.ident]:
                 c.tick()
-                cl.drain(hold if delays else None)
+                cl.drain(hold if delays or release_at is not None else None)
                 note()
     for r in range(closing):
         cl.round()
@@ -112,23 +122,50 @@ def run_schedule(src, n=2, rounds=6, closing=10, faults=1, delays=0, configs=('L
     return cl, cfg, plan, senders, traces
 
 
-def split_brain_plan(n, max_len):
-    """plan_fn for run_schedule: one instance is cut from the others at round 2..3 for 1..max_len rounds, then the
-    partition heals (positions inside the rounds solver-chosen)"""
+SPLIT_STARTS = (2, 3, 10)
+
+
+def split_brain_plan(n, max_len, late=True):
+    """plan_fn for run_schedule.  Optionally one instance joins late (down from round 0, started at round 5, so that
+    the Master that is kept need not be the one the rule prefers).  Then one instance is separated from the others at
+    round 2, 3 (cluster still starting) or 10 (cluster in OPERATION) for 0..max_len rounds (0 = until later in the
+    same round, so that only the instances that tick in between can notice), in one of three ways: a partition (sends
+    fail, the sender notices at once), or the proxy threads from / towards that instance stuck in a slow XML-RPC (what
+    they carry queues up silently and is delivered, in order, at the end)."""
     def plan_fn(src):
-        cut = src.pick_int('cut_instance', 0, n - 1)
-        start = src.pick_int('partition_round', 2, 3)
-        pos = src.pick_int('partition_pos', 0, n - 1)
-        length = src.pick_int('partition_length', 1, max_len)
-        hpos = src.pick_int('heal_pos', 0, n - 1)
         plan = []
+        if late:
+            who = src.pick('late_joiner', [None] + list(range(n)))
+            if who is not None:
+                plan.append((0, 0, ('crash', who, None)))
+                plan.append((5, 0, ('restart', who, None)))
+        cut = src.pick_int('cut_instance', 0, n - 1)
+        mode = src.pick('separation', ['partition', 'stalled-from', 'stalled-towards'])
+        start = src.pick('partition_round', list(SPLIT_STARTS))
+        pos = src.pick_int('partition_pos', 0, n - 1)
+        length = src.pick_int('partition_length', 0, max_len)
+        hpos = src.pick_int('heal_pos', 0, n - 1)
+        if length == 0:
+            src.assume(hpos > pos)
         for other in range(n):
-            if other != cut:
+            if other == cut:
+                continue
+            if mode == 'partition':
                 a, b = min(cut, other), max(cut, other)
                 plan.append((start, pos, ('partition', a, b)))
                 plan.append((start + length, hpos, ('heal', a, b)))
+            else:
+                a, b = (cut, other) if mode == 'stalled-from' else (other, cut)
+                plan.append((start, pos, ('stall', a, b)))
+                plan.append((start + length, hpos, ('unstall', a, b)))
         return plan
     return plan_fn
+
+
+def separation_length(plan):
+    begin = [x[0] for x in plan if x[2][0] in ('partition', 'stall')]
+    end = [x[0] for x in plan if x[2][0] in ('heal', 'unstall')]
+    return f"{[x[2][0] for x in plan if x[2][0] in ('partition', 'stall')][0]}-of-{end[0] - begin[0]}-rounds"
 
 
 def groups(cl, skipped=None):
